@@ -13,7 +13,7 @@ Translated on every run.  Shape accepted (anything else fails closed):
 The loop becomes PyK_c08.k_iter with fuel = 1 + nesting depth of the type term (every accepted
 rebinding must take a component of the value; the theorem K17_nullable fails if that is not so).
 Abstractions (types are encoded as kernel values, see PyK_c08.v):
-  is_annotated(t) / is_final(t) / is_optional(t, ...) / is_type_var_any(self.get_real_type(fname, t))
+  is_annotated(t) / is_final(t) / is_union(t) / is_optional(t, ...) / is_type_var_any(self.get_real_type(fname, t))
   -> tag tests; get_type_origin(t) -> ty_origin; get_args(t) -> ty_args;
   typing.Any / type(None) -> ty_any / ty_nonetype; self.get_field_default(fname) -> a_default.
 The abstraction of is_optional as "a union of exactly two members one of which is None" is only used
@@ -47,7 +47,7 @@ class K17Translator(FnTranslator):
         key = ast.unparse(e)
         if key == "typing.Any":
             return [], "ty_any"
-        if key == "type(None)":
+        if key in ("type(None)", "NoneType"):
             return [], "ty_nonetype"
         if key == "self.get_field_default(fname)":
             return [], "a_default"
@@ -60,13 +60,18 @@ class K17Translator(FnTranslator):
                 pre += p
                 items.append(b)
             return pre, "(KBool (existsb (k_eq " + a + ") [" + "; ".join(items) + "]))"
+        if isinstance(e, ast.Compare) and len(e.ops) == 1 and isinstance(e.ops[0], ast.In):
+            pl, a = self.expr(e.left)
+            pr, b = self.expr(e.comparators[0])
+            t = self.fresh()
+            return pl + pr + [(t, f"(b <- k_in {a} {b} ;; Ok (KBool b))")], t
         return super().expr(e)
 
     def call(self, e):
         f = ast.unparse(e.func)
         if e.keywords:
             raise Unsupported(f"keyword call {ast.unparse(e)}")
-        if f in ("is_annotated", "is_final") and len(e.args) == 1:
+        if f in ("is_annotated", "is_final", "is_union") and len(e.args) == 1:
             pre, a = self.expr(e.args[0])
             return pre, f"(KBool (ty_{f} {a}))"
         if f == "get_type_origin" and len(e.args) == 1:
